@@ -45,6 +45,17 @@ const TARGETS: &[Target] = &[
     Target { name: "ub_complement", file: "src/bounds/userbounds.rs", impl_trait: Some("UserBoundsTrait"), impl_self: Some("UserBounds"),
              func: "complement", calls: &[("try_into_range", "gen_ub_try_into_range"), ("complement_std_range", "gen_complement_std_range"), ("into", "gen_ub_from_range")],
              deps: &["ub_try_into_range", "complement_std_range", "ub_from_range"] },
+    Target { name: "ubl_bounds_only", file: "src/bounds/userboundslist.rs", impl_trait: None, impl_self: Some("UserBoundsList"),
+             func: "get_userbounds_only", calls: &[], deps: &[] },
+    Target { name: "ubl_is_sortable", file: "src/bounds/userboundslist.rs", impl_trait: None, impl_self: Some("UserBoundsList"),
+             func: "is_sortable", calls: &[("get_userbounds_only", "gen_ubl_bounds_only")], deps: &["ubl_bounds_only"] },
+    Target { name: "ubl_is_sorted", file: "src/bounds/userboundslist.rs", impl_trait: None, impl_self: Some("UserBoundsList"),
+             func: "is_sorted", calls: &[("get_userbounds_only", "gen_ubl_bounds_only"), ("<=UserBounds", "gen_ub_partial_cmp")], deps: &["ubl_bounds_only", "ub_partial_cmp"] },
+    Target { name: "ubl_has_negative_indices", file: "src/bounds/userboundslist.rs", impl_trait: None, impl_self: Some("UserBoundsList"),
+             func: "has_negative_indices", calls: &[("get_userbounds_only", "gen_ubl_bounds_only")], deps: &["ubl_bounds_only"] },
+    Target { name: "ubl_is_forward_only", file: "src/bounds/userboundslist.rs", impl_trait: None, impl_self: Some("UserBoundsList"),
+             func: "is_forward_only", calls: &[("is_sortable", "gen_ubl_is_sortable"), ("is_sorted", "gen_ubl_is_sorted"), ("has_negative_indices", "gen_ubl_has_negative_indices")],
+             deps: &["ubl_is_sortable", "ubl_is_sorted", "ubl_has_negative_indices"] },
 ];
 
 #[derive(Clone, PartialEq, Debug)]
@@ -59,6 +70,12 @@ struct Cx {
     call_ty: HashMap<String, Ty>,
     tuple_hint: Vec<Ty>,
     ret_ty: String,
+    /// functions with `let mut`: continuations are inlined textually instead of being let-bound, so that
+    /// what follows an assignment sees the new value (names are never shadowed in such functions)
+    inline_k: bool,
+    muts: Vec<String>,
+    /// what `return e` means here: the function's result, a loop's `Break`, a closure's value
+    retk_stack: Vec<String>,
 }
 
 const KEYWORDS: &[&str] = &["end", "match", "with", "fun", "let", "in", "if", "then", "else", "return", "as", "at", "fix",
@@ -114,6 +131,7 @@ fn field(name: &str) -> Option<(&'static str, Ty)> {
 }
 
 fn ty_of_type(t: &Type) -> (String, Ty) {
+    if let Some(item) = impl_iter_item(t) { let (c, ty) = ty_of_type(item); return (format!("(list {})", c), Ty::List(Box::new(ty))); }
     match t {
         Type::Reference(r) => ty_of_type(&r.elem),
         Type::Path(p) => {
@@ -131,6 +149,8 @@ fn ty_of_type(t: &Type) -> (String, Ty) {
                 "Side" => ("side".into(), Ty::Side),
                 "Ordering" => ("comparison".into(), Ty::Other),
                 "UserBounds" => ("ubound".into(), Ty::UB),
+                "UserBoundsList" => ("ublist".into(), Ty::Other),
+                "BoundOrFiller" => ("bof".into(), Ty::Other),
                 "Range" => ("(Z * Z)%type".into(), Ty::Range),
                 "Option" | "Result" => { let (c, t) = arg0(); (format!("(option {})", c), Ty::Opt(Box::new(t))) }
                 "Vec" => { let (c, t) = arg0(); (format!("(list {})", c), Ty::List(Box::new(t))) }
@@ -142,7 +162,20 @@ fn ty_of_type(t: &Type) -> (String, Ty) {
 }
 
 impl Cx {
-    fn retk(&self) -> String { format!("(fun x : {} => Ret x)", self.ret_ty) }
+    fn retk(&self) -> String { self.retk_stack.last().cloned().unwrap_or(format!("(fun x : {} => Ret x)", self.ret_ty)) }
+    fn muts_tuple(&self) -> String {
+        match self.muts.len() { 0 => "tt".into(), 1 => ident(&self.muts[0]), _ => format!("({})", self.muts.iter().map(|m| ident(m)).collect::<Vec<_>>().join(", ")) }
+    }
+    fn muts_pat(&self) -> String {
+        match self.muts.len() { 0 => "_".into(), 1 => ident(&self.muts[0]), _ => format!("'({})", self.muts.iter().map(|m| ident(m)).collect::<Vec<_>>().join(", ")) }
+    }
+    /// bind a continuation to a name (a join point), or use it as it is when continuations are inlined
+    fn join(&mut self, k: &str) -> (String, Option<(String, String)>) {
+        if self.inline_k { (k.to_string(), None) } else { let kj = self.fresh("k"); (kj.clone(), Some((kj, k.to_string()))) }
+    }
+    fn wrap(j: &Option<(String, String)>, body: String) -> String {
+        match j { Some((n, v)) => format!("(let {} := {} in {})", n, v, body), None => body }
+    }
     fn fresh(&mut self, base: &str) -> String {
         self.fresh += 1;
         format!("{}_{}", base, self.fresh)
@@ -167,7 +200,10 @@ impl Cx {
                 "clone" | "into_iter" | "iter" => self.ty(&m.receiver),
                 name => self.call_ty.get(name).cloned().unwrap_or(Ty::Other),
             },
-            Expr::Call(c) => match &*c.func { Expr::Path(p) => self.call_ty.get(&path_str(&p.path)).cloned().unwrap_or(Ty::Other), _ => Ty::Other },
+            Expr::Call(c) => match &*c.func {
+                Expr::Path(p) if (path_str(&p.path) == "Some" || path_str(&p.path) == "Ok") && c.args.len() == 1 => Ty::Opt(Box::new(self.ty(&c.args[0]))),
+                Expr::Path(p) => self.call_ty.get(&path_str(&p.path)).cloned().unwrap_or(Ty::Other),
+                _ => Ty::Other },
             Expr::Binary(b) => match b.op {
                 BinOp::Add(_) | BinOp::Sub(_) | BinOp::Mul(_) => { let l = self.ty(&b.left); if l == Ty::Other { self.ty(&b.right) } else { l } }
                 _ => Ty::Bool,
@@ -232,6 +268,7 @@ impl Cx {
             Expr::Binary(b) => {
                 let arith = matches!(b.op, BinOp::Add(_) | BinOp::Sub(_) | BinOp::Mul(_));
                 if arith { return Ok(None); }
+                if matches!(b.op, BinOp::Le(_) | BinOp::Lt(_) | BinOp::Ge(_) | BinOp::Gt(_)) && matches!(self.int_ty(&b.left, &b.right), Ty::Opt(_)) { return Ok(None); }
                 let l = match self.pure(&b.left)? { Some(x) => x, None => return Ok(None) };
                 let r = match self.pure(&b.right)? { Some(x) => x, None => return Ok(None) };
                 self.binop_pure(&b.op, &b.left, &b.right, &l, &r)?
@@ -239,7 +276,7 @@ impl Cx {
             Expr::MethodCall(m) => {
                 let name = m.method.to_string();
                 if self.calls.contains_key(&name) { return Ok(None); }
-                if ["expect", "unwrap", "collect", "map", "try_into", "into"].contains(&name.as_str()) { return Ok(None); }
+                if ["expect", "unwrap", "collect", "map", "try_into", "into", "for_each", "any", "flat_map"].contains(&name.as_str()) { return Ok(None); }
                 let recv = match self.pure(&m.receiver)? { Some(x) => x, None => return Ok(None) };
                 let mut args = vec![];
                 for a in &m.args { match self.pure(a)? { Some(x) => args.push(x), None => return Ok(None) } }
@@ -248,6 +285,8 @@ impl Cx {
                     ("is_negative", 0) => format!("({} <? 0)", recv),
                     ("cmp", 1) => format!("(i32_cmp {} {})", recv, args[0]),
                     ("clone", 0) | ("into_iter", 0) | ("iter", 0) => recv,
+                    ("is_none", 0) => format!("(match {} with None => true | _ => false end)", recv),
+                    ("is_some", 0) => format!("(match {} with None => false | _ => true end)", recv),
                     _ => return Err(format!("method `{}`", name)),
                 }
             }
@@ -301,7 +340,7 @@ impl Cx {
                     format!("[{}]", xs.join("; "))
                 } else { return Ok(None); }
             }
-            Expr::If(_) | Expr::Match(_) | Expr::Block(_) | Expr::Return(_) | Expr::Try(_) => return Ok(None),
+            Expr::If(_) | Expr::Match(_) | Expr::Block(_) | Expr::Return(_) | Expr::Try(_) | Expr::Assign(_) | Expr::ForLoop(_) | Expr::Closure(_) => return Ok(None),
             other => return Err(format!("expression kind at line {}", other.span().start().line)),
         }))
     }
@@ -334,7 +373,11 @@ impl Cx {
             Pat::Ident(i) => {
                 let n = i.ident.to_string();
                 if let Some(c) = unit_ctor(&n) { (c.to_string(), false) }
-                else { self.env.push((n.clone(), hint.clone())); (ident(&n), true) }
+                else {
+                    if self.inline_k && self.lookup(&n).is_some() { return Err(format!("`{}` is bound twice in a function with mutable variables", n)); }
+                    if i.mutability.is_some() { self.muts.push(n.clone()); }
+                    self.env.push((n.clone(), hint.clone())); (ident(&n), true)
+                }
             }
             Pat::Reference(r) => return self.pat(&r.pat, hint.clone()),
             Pat::Paren(r) => return self.pat(&r.pat, hint.clone()),
@@ -370,7 +413,7 @@ impl Cx {
             Expr::Paren(p) => self.tr(&p.expr, k),
             Expr::Group(p) => self.tr(&p.expr, k),
             Expr::Reference(r) => self.tr(&r.expr, k),
-            Expr::Block(b) => { let mark = self.env.len(); let r = self.stmts(&b.block.stmts, k); self.env.truncate(mark); r }
+            Expr::Block(b) => { let mark = self.env.len(); let mm = self.muts.len(); let r = self.stmts(&b.block.stmts, k); self.env.truncate(mark); self.muts.truncate(mm); r }
             Expr::Unary(u) => {
                 let x = self.fresh("t");
                 let inner = match u.op {
@@ -401,13 +444,20 @@ impl Cx {
                     }
                     BinOp::Or(_) | BinOp::And(_) => {
                         // short circuit: the right operand is evaluated only when the left one does not decide
-                        let kj = self.fresh("k");
+                        let (kj, jn) = self.join(k);
                         let x = self.fresh("t");
                         let rhs = self.tr(&b.right, &kj)?;
                         let body = if matches!(b.op, BinOp::Or(_)) { format!("(if {} then ({} true) else {})", x, kj, rhs) }
                                    else { format!("(if {} then {} else ({} false))", x, rhs, kj) };
                         let lhs = self.tr(&b.left, &format!("(fun {} : bool => {})", x, body))?;
-                        Ok(format!("(let {} := {} in {})", kj, k, lhs))
+                        Ok(Self::wrap(&jn, lhs))
+                    }
+                    BinOp::Le(_) if matches!(&t, Ty::Opt(i) if **i == Ty::UB) => {
+                        // Option<&UserBounds> <= Option<&UserBounds>: None is below everything, Some compares through partial_cmp
+                        let g = self.calls.get("<=UserBounds").cloned().ok_or("comparison of bounds without a translated partial_cmp")?;
+                        let (x, y) = (self.fresh("t"), self.fresh("t"));
+                        let inner = self.tr(&b.right, &format!("(fun {} => (bind (opt_le_with {} {} {}) {}))", y, g, x, y, k))?;
+                        self.tr(&b.left, &format!("(fun {} => {})", x, inner))
                     }
                     _ => {
                         let (x, y) = (self.fresh("t"), self.fresh("t"));
@@ -423,8 +473,24 @@ impl Cx {
                 }
             }
             Expr::If(i) => {
-                if matches!(&*i.cond, Expr::Let(_)) { return Err("if let".into()); }
-                let kj = self.fresh("k");
+                if let Expr::Let(l) = &*i.cond {
+                    // if let PAT = e { A } else { B }  ==  match e { PAT => A, _ => B }
+                    let (kj, jn) = self.join(k);
+                    let sc = self.fresh("s");
+                    let mark = self.env.len(); let mmark = self.muts.len();
+                    self.tuple_hint = vec![];
+                    let hint = self.ty(&l.expr);
+                    let (p, irrefutable) = self.pat(&l.pat, hint)?;
+                    let th = self.stmts(&i.then_branch.stmts, &kj)?;
+                    self.env.truncate(mark); self.muts.truncate(mmark);
+                    let el = match &i.else_branch { Some((_, e)) => self.tr(e, &kj)?, None => format!("({} tt)", kj) };
+                    self.env.truncate(mark); self.muts.truncate(mmark);
+                    let body = if irrefutable { format!("(let {}{} := {} in {})", if p.starts_with('(') { "'" } else { "" }, p, sc, th) }
+                               else { format!("(match {} with | {} => {} | _ => {} end)", sc, p, th, el) };
+                    let r = self.tr(&l.expr, &format!("(fun {} => {})", sc, body))?;
+                    return Ok(Self::wrap(&jn, r));
+                }
+                let (kj, jn) = self.join(k);
                 let c = self.fresh("c");
                 let mark = self.env.len();
                 let th = self.stmts(&i.then_branch.stmts, &kj)?;
@@ -432,7 +498,58 @@ impl Cx {
                 let el = match &i.else_branch { Some((_, e)) => self.tr(e, &kj)?, None => format!("({} tt)", kj) };
                 self.env.truncate(mark);
                 let cond = self.tr(&i.cond, &format!("(fun {} : bool => (if {} then {} else {}))", c, c, th, el))?;
-                Ok(format!("(let {} := {} in {})", kj, k, cond))
+                Ok(Self::wrap(&jn, cond))
+            }
+            Expr::Assign(a) => {
+                let name = match &*a.left { Expr::Path(p) => path_str(&p.path), _ => return Err("assignment to something that is not a variable".into()) };
+                if !self.muts.contains(&name) { return Err(format!("assignment to `{}`, which is not a `let mut` of this function", name)); }
+                let v = self.fresh("v");
+                self.tr(&a.right, &format!("(fun {} => (let {} := {} in ({} tt)))", v, ident(&name), v, k))
+            }
+            Expr::ForLoop(f) => {
+                // for PAT in ITER { BODY }: the mutable variables in scope are the loop state; `return` leaves the loop with Break
+                let st_pat = self.muts_pat(); let st_tup = self.muts_tuple();
+                let outer_ret = self.retk();
+                let elem_ty = match self.ty(&f.expr) { Ty::Range => Ty::Usize, Ty::List(t) => *t, _ => Ty::Other };
+                let mark = self.env.len(); let mmark = self.muts.len();
+                self.tuple_hint = vec![];
+                let (p, irr) = self.pat(&f.pat, elem_ty)?;
+                if !irr { return Err("refutable loop pattern".into()); }
+                self.retk_stack.push("(fun x => Ret (Break x))".into());
+                let body = self.stmts(&f.body.stmts, &format!("(fun _ => Ret (Next {}))", st_tup));
+                self.retk_stack.pop();
+                self.env.truncate(mark); self.muts.truncate(mmark);
+                let body = body?;
+                let (src, r, v) = (self.fresh("a"), self.fresh("r"), self.fresh("v"));
+                let after = format!("(fun {} => match {} with Next {} => ({} tt) | Break {} => ({} {}) end)", r, r, st_pat.trim_start_matches('\''), k, v, outer_ret, v);
+                self.tr(&f.expr, &format!("(fun {} => (bind (loopM (fun {} {} => {}) (to_list {}) {}) {}))", src, st_pat, p, body, src, st_tup, after))
+            }
+            Expr::MethodCall(m) if ["for_each", "any", "flat_map"].contains(&m.method.to_string().as_str()) && m.args.len() == 1 && matches!(&m.args[0], Expr::Closure(_)) => {
+                let clo = match &m.args[0] { Expr::Closure(c) => c, _ => unreachable!() };
+                if clo.inputs.len() != 1 { return Err("closure arity".into()); }
+                let st_pat = self.muts_pat(); let st_tup = self.muts_tuple();
+                let elem_ty = match self.ty(&m.receiver) { Ty::Range => Ty::Usize, Ty::List(t) => *t, _ => Ty::Other };
+                let mark = self.env.len(); let mmark = self.muts.len();
+                self.tuple_hint = vec![];
+                let (p, irr) = self.pat(&clo.inputs[0], elem_ty)?;
+                if !irr { return Err("refutable closure parameter".into()); }
+                let which = m.method.to_string();
+                let src = self.fresh("a");
+                let res = if which == "for_each" {
+                    // the closure may assign to the captured `let mut`s: they are the fold's state
+                    self.retk_stack.push(format!("(fun _ => Ret {})", st_tup));
+                    let body = self.tr(&clo.body, &format!("(fun _ => Ret {})", st_tup));
+                    self.retk_stack.pop();
+                    format!("(fun {} => (bind (foldM (fun {} {} => {}) (to_list {}) {}) (fun {} => ({} tt))))", src, st_pat, p, body?, src, st_tup, st_pat, k)
+                } else {
+                    self.retk_stack.push("(fun x => Ret x)".into());
+                    let body = self.tr(&clo.body, "(fun x => Ret x)");
+                    self.retk_stack.pop();
+                    let f = if which == "any" { "anyM" } else { "flat_mapM" };
+                    format!("(fun {} => (bind ({} (fun {} => {}) (to_list {})) {}))", src, f, p, body?, src, k)
+                };
+                self.env.truncate(mark); self.muts.truncate(mmark);
+                self.tr(&m.receiver, &res)
             }
             Expr::Match(m) => self.tr_match(m, k),
             Expr::Return(r) => match &r.expr { Some(e) => { let k = self.retk(); self.tr(e, &k) }, None => Ok("(Ret tt)".into()) },
@@ -519,7 +636,7 @@ impl Cx {
         self.tuple_hint = match &*m.expr { Expr::Tuple(t) => t.elems.iter().map(|e| self.ty(e)).collect(), _ => vec![] };
         let whole_hint = self.ty(&m.expr);
         let hints = self.tuple_hint.clone();
-        let kj = self.fresh("k");
+        let (kj, jn) = self.join(k);
         let mut rest = format!("(fun _ : unit => @Panic {})", self.ret_ty);
         let mut lets: Vec<(String, String)> = vec![];
         for arm in m.arms.iter().rev() {
@@ -546,7 +663,7 @@ impl Cx {
         }
         let mut out = format!("({} tt)", rest);
         for (name, val) in lets.iter().rev() { out = format!("(let {} := {} in {})", name, val, out); }
-        let body = format!("(let {} := {} in {})", kj, k, out);
+        let body = Self::wrap(&jn, out);
         self.tr(&m.expr, &format!("(fun {} => {})", sc, body))
     }
 
@@ -588,7 +705,24 @@ impl Cx {
 }
 
 /// gallina type of a Rust return type (Result/Option -> option, Vec -> list, Range -> pair)
+fn impl_iter_item(t: &Type) -> Option<&Type> {
+    if let Type::ImplTrait(it) = t {
+        for b in &it.bounds {
+            if let TypeParamBound::Trait(tb) = b {
+                let seg = tb.path.segments.last()?;
+                if seg.ident == "Iterator" {
+                    if let PathArguments::AngleBracketed(a) = &seg.arguments {
+                        for g in &a.args { if let GenericArgument::AssocType(at) = g { if at.ident == "Item" { return Some(&at.ty); } } }
+                    }
+                }
+            }
+        }
+    }
+    None
+}
+
 fn ret_type(t: &Type) -> Option<String> {
+    if let Some(item) = impl_iter_item(t) { return Some(format!("(list {})", ret_type(item)?)); }
     match t {
         Type::Reference(r) => ret_type(&r.elem),
         Type::Path(p) => {
@@ -606,6 +740,8 @@ fn ret_type(t: &Type) -> Option<String> {
                 "Ordering" => "comparison".into(),
                 "Side" => "side".into(),
                 "UserBounds" => "ubound".into(),
+                "UserBoundsList" => "ublist".into(),
+                "BoundOrFiller" => "bof".into(),
                 "Range" => "(Z * Z)%type".into(),
                 "Option" | "Result" => format!("(option {})", arg(0)?),
                 "Vec" => format!("(list {})", arg(0)?),
@@ -641,8 +777,9 @@ fn find_fn<'a>(file: &'a File, t: &Target) -> Option<(&'a Signature, &'a Block, 
 fn translate(t: &Target, sig: &Signature, block: &Block, ret_tys: &HashMap<String, Ty>) -> R<(String, Ty)> {
     let mut cx = Cx { env: vec![], fresh: 0, calls: t.calls.iter().map(|(a, b)| (a.to_string(), b.to_string())).collect(),
                       call_ty: t.calls.iter().filter_map(|(a, b)| ret_tys.get(*b).map(|ty| (a.to_string(), ty.clone()))).collect(),
-                      tuple_hint: vec![], ret_ty: String::new() };
-    let self_coq = match t.impl_self { Some("Side") => ("side", Ty::Side), Some("UserBounds") => ("ubound", Ty::UB), _ => ("UNKNOWN", Ty::Other) };
+                      tuple_hint: vec![], ret_ty: String::new(), inline_k: false, muts: vec![], retk_stack: vec![] };
+    cx.inline_k = quote::ToTokens::to_token_stream(block).to_string().contains("let mut ");
+    let self_coq = match t.impl_self { Some("Side") => ("side", Ty::Side), Some("UserBounds") => ("ubound", Ty::UB), Some("UserBoundsList") => ("ublist", Ty::Other), _ => ("UNKNOWN", Ty::Other) };
     let mut rty = Ty::Other;
     cx.ret_ty = match &sig.output {
         ReturnType::Type(_, t) => {
